@@ -40,9 +40,12 @@ def size_func(s, T):
 
 
 def run_native(prog, pts, ns=None):
-    """Execute a program with PhiManip / Integration (the hand-written dadi model)."""
+    """Execute a program with PhiManip / Integration (the hand-written dadi model).  A list of grid sizes means the
+    usual extrapolated model function (Numerics.make_extrap_func), as Spectrum.from_demes does for a list."""
     import dadi
     from dadi import PhiManip, Integration, Numerics
+    if isinstance(pts, (list, tuple)):
+        return Numerics.make_extrap_func(lambda params, n, p: run_native(prog, p, n))(None, ns, list(pts))
     xx = Numerics.default_grid(pts)
     phi = None
     for e in prog:
@@ -67,6 +70,8 @@ def run_native(prog, pts, ns=None):
             elif P == 2:
                 if e.get('api') == 'split' and pr[0] in (0, 1):
                     phi = (PhiManip.phi_2D_to_3D_split_1 if pr[0] == 1 else PhiManip.phi_2D_to_3D_split_2)(xx, phi)
+                elif e.get('api') == 'alias':
+                    phi = PhiManip.phi_2D_to_3D(phi, pr[0], xx, xx, xx)
                 else:
                     phi = PhiManip.phi_2D_to_3D_admix(phi, pr[0], xx, xx, xx)
             elif P == 3:
@@ -84,7 +89,10 @@ def run_native(prog, pts, ns=None):
                 f = getattr(PhiManip, 'phi_%dD_admix_into_%d' % (P, d))
             phi = f(phi, *oth, *([xx] * P))
         elif k == 'remove':
-            phi = PhiManip.remove_pop(phi, xx, e['i'])
+            if e.get('api') == 'filter':
+                phi = PhiManip.filter_pops(phi, xx, [j for j in range(1, phi.ndim + 1) if j != e['i']])
+            else:
+                phi = PhiManip.remove_pop(phi, xx, e['i'])
         elif k == 'reorder':
             phi = PhiManip.reorder_pops(phi, e['perm'])
     if ns is None:
@@ -167,9 +175,9 @@ def scale_graph(gd, c):
     return map_graph(gd, lambda t: t * c, lambda s: s * c, lambda r: r / c)
 
 
-def to_years(gd, gt):
-    """A graph in generations re-expressed in years."""
-    return map_graph(gd, lambda t: t * gt, lambda s: s, lambda r: r, time_units='years', generation_time=gt)
+def to_years(gd, gt, name='years'):
+    """A graph in generations re-expressed in another time unit (gt units per generation)."""
+    return map_graph(gd, lambda t: t * gt, lambda s: s, lambda r: r, time_units=name, generation_time=gt)
 
 
 def to_generations(gd):
@@ -336,10 +344,28 @@ class CallLog:
         return False
 
 
-def run_from_demes(gd, sampled, ns, pts, stimes=None, Ne=None, log=True):
-    """Spectrum.from_demes on the graph dict gd; returns (spectrum or None, events, split orders, exception text)."""
+def run_from_demes(gd, sampled, ns, pts, stimes=None, Ne=None, log=True, as_yaml=False):
+    """Spectrum.from_demes on the graph dict gd; returns (spectrum or None, events, split orders, exception text).
+    as_yaml: hand from_demes the name of a YAML file instead of the Graph object."""
     import dadi
     g = build_graph(gd)
+    if as_yaml:
+        import demes, tempfile, os
+        fd, path = tempfile.mkstemp(suffix='.yaml', dir=common.SCRATCH_ROOT)
+        os.close(fd)
+        try:
+            demes.dump(g, path)
+            kw = {}
+            if stimes is not None:
+                kw['sample_times'] = list(stimes)
+            if Ne is not None:
+                kw['Ne'] = Ne
+            try:
+                return dadi.Spectrum.from_demes(path, sampled_demes=list(sampled), sample_sizes=list(ns), pts=pts, **kw), None, None, None
+            except Exception as ex:
+                return None, None, None, '%s:%s' % (type(ex).__name__, str(ex)[:80])
+        finally:
+            os.remove(path)
     kw = {}
     if stimes is not None:
         kw['sample_times'] = list(stimes)
@@ -469,8 +495,10 @@ def prog_case_records(case, rng):
     # (c) re-import (reference size = Nref, so that theta means the same as in the native program)
     Ne = None if nu0 == 1.0 else Nref
     site = _site('Spectrum.from_demes', P)
-    fs_re, events, orders, err = run_from_demes(gd, leaves, ns, pts, Ne=Ne)
-    recs.append(_import_record(cid + '-import', _site('Demes.SFS', P), gd, leaves, None, Ne, events, orders, err, case))
+    extrap = isinstance(pts, (list, tuple))
+    fs_re, events, orders, err = run_from_demes(gd, leaves, ns, pts, Ne=Ne, log=not extrap)
+    if not extrap:          # (with a list of grids the calls are made once per grid; the single-grid cases carry the call check)
+        recs.append(_import_record(cid + '-import', _site('Demes.SFS', P), gd, leaves, None, Ne, events, orders, err, case))
     sh = [n + 1 for n in ns]
     if needs_refinement(prog) and not err:
         f1 = dadi.Integration.timescale_factor
@@ -492,19 +520,26 @@ def prog_case_records(case, rng):
     if err:
         return recs
     # (d) the same graph in other units / relative to another reference size / sampled in another order
-    gt2 = rng.choice([25.0, 29.0, 1.0, 7.5])
-    g_u = to_years(gd, gt2) if gd['time_units'] == 'generations' else to_generations(gd)
-    fs_u, _, _, e = run_from_demes(g_u, leaves, ns, pts, Ne=Ne, log=False)
-    recs.append(_same(cid + '-units', site, 'UnitsInvariance', fs_u, fs_re, sh, case, err=e))
-    c = rng.choice([3.0, 0.5, 1 / 3., 7.3, rng.uniform(0.1, 10)])
-    fs_s, _, _, e = run_from_demes(scale_graph(gd, c), leaves, ns, pts, Ne=None if Ne is None else Ne * c, log=False)
-    recs.append(_same(cid + '-scale', site, 'ScaleInvariance', fs_s, fs_re, sh, case, err=e))
+    gen = to_generations(gd) if gd['time_units'] != 'generations' else gd
+    units = case.get('units') or [[rng.choice([25.0, 29.0, 1.0, 7.5]), 'years']]
+    for q, (gt2, name) in enumerate(units):
+        # exported in years: back to generations first, then (for further entries) into the other unit
+        g_u = gen if (gd['time_units'] != 'generations' and q == 0) else to_years(gen, gt2, name)
+        fs_u, _, _, e = run_from_demes(g_u, leaves, ns, pts, Ne=Ne, log=False)
+        recs.append(_same(cid + '-units%s' % (q or ''), site, 'UnitsInvariance', fs_u, fs_re, sh, case, err=e))
+    for q, c in enumerate(case.get('scales') or [rng.choice([3.0, 0.5, 1 / 3., 7.3, rng.uniform(0.1, 10)])]):
+        fs_s, _, _, e = run_from_demes(scale_graph(gd, c), leaves, ns, pts, Ne=None if Ne is None else Ne * c, log=False)
+        recs.append(_same(cid + '-scale%s' % (q or ''), site, 'ScaleInvariance', fs_s, fs_re, sh, case, err=e))
     if len(leaves) >= 2:
         pi = list(range(1, len(leaves) + 1))
         while pi == sorted(pi):
             rng.shuffle(pi)
-        fs_p, _, _, e = run_from_demes(gd, [leaves[j - 1] for j in pi], [ns[j - 1] for j in pi], pts, Ne=Ne, log=False)
-        recs.append(_same(cid + '-perm', site, 'SamplePermutation', fs_p, fs_re, sh, case, pi=pi, err=e))
+        for q, pi in enumerate(case.get('pis') or [pi]):
+            fs_p, _, _, e = run_from_demes(gd, [leaves[j - 1] for j in pi], [ns[j - 1] for j in pi], pts, Ne=Ne, log=False)
+            recs.append(_same(cid + '-perm%s' % (q or ''), site, 'SamplePermutation', fs_p, fs_re, sh, case, pi=pi, err=e))
+    if case.get('yaml'):
+        fs_y, _, _, e = run_from_demes(gd, leaves, ns, pts, Ne=Ne, log=False, as_yaml=True)
+        recs.append(_same(cid + '-yaml', site, 'YamlFileEqualsGraphObject', fs_y, fs_re, sh, case, err=e))
     return recs
 
 
@@ -747,14 +782,22 @@ def graph_case_records(case, rng):
     if err:
         return recs
     sh = [n + 1 for n in ns]
-    gt = rng.choice([25.0, 29.0, 7.5])
-    fs_u, _, _, e = run_from_demes(to_years(gd, gt), sampled, ns, pts, stimes=None if stimes is None else [t * gt for t in stimes], Ne=Ne, log=False)
-    recs.append(_same(cid + '-units', site, 'UnitsInvariance', fs_u, fs, sh, case, err=e))
+    # the graph and the sample times in generations (sample times are given in the graph's own units)
+    gt0 = gd['generation_time'] if gd['time_units'] != 'generations' else 1.0
+    gen = to_generations(gd) if gd['time_units'] != 'generations' else gd
+    st_gen = None if stimes is None else [t / gt0 for t in stimes]
+    units = case.get('units') or [[rng.choice([25.0, 29.0, 7.5]), 'years']]
+    for q, (gt, name) in enumerate(units):
+        g_u = gen if (gd['time_units'] != 'generations' and q == 0) else to_years(gen, gt, name)
+        st_u = st_gen if g_u is gen else (None if stimes is None else [t * gt for t in st_gen])
+        fs_u, _, _, e = run_from_demes(g_u, sampled, ns, pts, stimes=st_u, Ne=Ne, log=False)
+        recs.append(_same(cid + '-units%s' % (q or ''), site, 'UnitsInvariance', fs_u, fs, sh, case, err=e))
     c = rng.choice([3.0, 0.5, 1 / 3., 7.3, rng.uniform(0.1, 10)])
-    sargs = dict(stimes=None if stimes is None else [t * c for t in stimes], Ne=None if Ne is None else Ne * c, log=False)
-    if not stimes:
-        fs_s, _, _, e = run_from_demes(scale_graph(gd, c), sampled, ns, pts, **sargs)
-        recs.append(_same(cid + '-scale', site, 'ScaleInvariance', fs_s, fs, sh, case, err=e))
+    if not stimes or len(set(stimes)) == 1:          # no frozen branch: identical time steps in any reference size
+        for q, c in enumerate(case.get('scales') or [c]):
+            sargs = dict(stimes=None if stimes is None else [t * c for t in stimes], Ne=None if Ne is None else Ne * c, log=False)
+            fs_s, _, _, e = run_from_demes(scale_graph(gd, c), sampled, ns, pts, **sargs)
+            recs.append(_same(cid + '-scale%s' % (q or ''), site, 'ScaleInvariance', fs_s, fs, sh, case, err=e))
     elif case.get('scale_refine'):
         # the frozen branch of an ancient sample has size 1 in any units, and the time step depends on it:
         # the step boundaries differ, so the two spectra are compared as a refinement
@@ -775,9 +818,13 @@ def graph_case_records(case, rng):
         pi = list(range(1, len(sampled) + 1))
         while pi == sorted(pi):
             rng.shuffle(pi)
-        fs_p, _, _, e = run_from_demes(gd, [sampled[j - 1] for j in pi], [ns[j - 1] for j in pi], pts,
-                                       stimes=None if stimes is None else [stimes[j - 1] for j in pi], Ne=Ne, log=False)
-        recs.append(_same(cid + '-perm', site, 'SamplePermutation', fs_p, fs, sh, case, pi=pi, err=e))
+        for q, pi in enumerate(case.get('pis') or [pi]):
+            fs_p, _, _, e = run_from_demes(gd, [sampled[j - 1] for j in pi], [ns[j - 1] for j in pi], pts,
+                                           stimes=None if stimes is None else [stimes[j - 1] for j in pi], Ne=Ne, log=False)
+            recs.append(_same(cid + '-perm%s' % (q or ''), site, 'SamplePermutation', fs_p, fs, sh, case, pi=pi, err=e))
+    if case.get('yaml'):
+        fs_y, _, _, e = run_from_demes(gd, sampled, ns, pts, stimes=stimes, Ne=Ne, log=False, as_yaml=True)
+        recs.append(_same(cid + '-yaml', site, 'YamlFileEqualsGraphObject', fs_y, fs, sh, case, err=e))
     if Ne is None and not stimes:
         # theta is 4*Ne*mu: expressing the same graph relative to a reference size k times the root size divides the spectrum by k
         k = rng.choice([2.0, 0.5, 3.0])
@@ -785,6 +832,163 @@ def graph_case_records(case, rng):
         fs_n, _, _, e = run_from_demes(gd, sampled, ns, pts, Ne=k * root, log=False)
         recs.append(_same(cid + '-Ne', site, 'NeParameterScalesTheta', fs_n, fs, sh, case, mul=k, err=e))
     return recs
+
+
+# --------------------------------------------------------------------------
+# deterministic cases: every element of the property's stated domain that a random draw might miss
+# --------------------------------------------------------------------------
+def _C(x):
+    return {'s0': x, 's1': x, 'fn': 'constant'}
+
+
+def _L(a, b):
+    return {'s0': a, 's1': b, 'fn': 'linear'}
+
+
+def _E(a, b):
+    return {'s0': a, 's1': b, 'fn': 'exponential'}
+
+
+def _I(T, sizes, mig=None):
+    """mig: {(i, j): rate into i from j} (1-based)."""
+    P = len(sizes)
+    M = [[0.0] * P for _ in range(P)]
+    for (i, j), m in (mig or {}).items():
+        M[i - 1][j - 1] = m
+    return {'k': 'int', 'T': T, 'sizes': list(sizes), 'mig': M, 'frozen': [False] * P}
+
+
+def _S(props, api='admix'):
+    return {'k': 'split', 'props': list(props), 'api': api}
+
+
+def _U(dest, props):
+    return {'k': 'pulse', 'dest': dest, 'props': list(props)}
+
+
+def fixed_programs():
+    """Hand-picked programs: every split function and parent position (1->2, 2->3 through split_1 / split_2 / admix /
+    the phi_2D_to_3D alias, 3->4 and 4->5 from every parent and as a full admixture), every pulse function (2-5
+    populations, every destination, single and several sources, consecutive pulses), removal of first / middle / last
+    population through remove_pop and filter_pops, reordering in the middle and at the end (list and tuple), constant /
+    linear / exponential sizes in every integrator, symmetric and asymmetric migration, consecutive integrations,
+    Python ints for sizes / rates / Nref / generation_time, root size 1 and != 1."""
+    i1 = {'k': 'init', 'nu': 1.0}
+    P = {}
+    P['f1'] = dict(prog=[i1, _I(0.05, [_C(2)]), _I(0.04, [_L(2.0, 0.7)]), _I(0.06, [_E(0.7, 3.0)])], pts=14, ns=[5], Nref=1000, gt=None)
+    P['f1nu'] = dict(prog=[{'k': 'init', 'nu': 3}, _I(0.05, [_E(3.0, 0.5)]), _I(0.04, [_C(0.5)])], pts=14, ns=[4], Nref=7300, gt=25)
+    two = [i1, _I(0.05, [_C(1.5)]), _S([1.0]), _I(0.04, [_E(0.5, 2.0), _L(2.0, 1.0)], {(1, 2): 0.7, (2, 1): 0.3})]
+    P['f2'] = dict(prog=two + [_U(1, [0, 0.2]), _I(0.03, [_C(2), _C(1)], {(1, 2): 1, (2, 1): 1}), _U(2, [0.15, 0]), _U(1, [0, 0.1]),
+                               _I(0.03, [_C(2.0), _L(1.0, 1.5)]), {'k': 'reorder', 'perm': (2, 1)}], pts=12, ns=[3, 4], Nref=1000.0, gt=29.0)
+    P['f2r'] = dict(prog=two + [{'k': 'reorder', 'perm': [2, 1]}, _I(0.03, [_C(1.2), _E(2.0, 1.0)], {(2, 1): 0.5}),
+                                {'k': 'remove', 'i': 1, 'api': 'filter'}, _I(0.03, [_L(1.0, 2.0)])], pts=12, ns=[4], Nref=500.0, gt=None)
+    m3 = {(1, 2): 0.3, (1, 3): 0.6, (2, 1): 0.9, (2, 3): 1.2, (3, 1): 0.2, (3, 2): 0.5}
+    s3 = [0.03, [_C(1.0), _L(2.0, 1.0), _E(0.5, 1.5)], m3]
+    P['f3'] = dict(prog=two + [_S([1, 0], 'split'), _I(*s3), _U(1, [0, 0.1, 0.2]), _I(0.02, [_C(1.0), _C(2.0), _C(0.5)], {(1, 2): 1.0, (2, 1): 1.0}),
+                               _U(2, [0.1, 0, 0.05]), _I(*s3), _U(3, [0.2, 0.1, 0]), _I(0.02, [_C(1.0), _C(2.0), _C(0.5)]),
+                               {'k': 'remove', 'i': 2}, _I(0.03, [_C(1.0), _L(0.5, 1.0)], {(2, 1): 0.4}), _S([0, 1], 'split'), _I(*s3),
+                               {'k': 'remove', 'i': 1, 'api': 'filter'}, _I(0.03, [_E(1.0, 2.0), _C(0.7)]), _S([0.3, 0.7], 'alias'), _I(*s3),
+                               {'k': 'reorder', 'perm': [3, 1, 2]}], pts=10, ns=[2, 3, 4], Nref=1000.0, gt=None)
+    s4 = [0.02, [_C(1.0), _E(0.5, 1.5), _C(2), _L(2.0, 1.0)], {(1, 4): 0.5, (2, 1): 1, (4, 3): 0.25, (3, 2): 0.7}]
+    c4 = [0.015, [_C(1.0), _C(1.5), _C(2.0), _C(0.6)]]
+    three = two + [_S([0, 1], 'split'), _I(*s3)]
+    P['f4'] = dict(prog=three + [_S([1, 0, 0]), _I(*s4), _U(1, [0, 0.1, 0.05, 0.1]), _I(*c4), _U(2, [0.1, 0, 0, 0]), _I(*c4),
+                                 _U(3, [0.05, 0.1, 0, 0.2]), _I(*c4), _U(4, [0, 0, 0.3, 0]), _I(*s4), {'k': 'remove', 'i': 4}, _I(*s3),
+                                 _S([0, 1, 0]), _I(*c4), {'k': 'remove', 'i': 1}, _I(*s3), _S([0, 0, 1]), _I(*s4),
+                                 {'k': 'remove', 'i': 2, 'api': 'filter'}, _I(*s3), _S([0.2, 0.3, 0.5]), _I(*s4), {'k': 'reorder', 'perm': (2, 1, 4, 3)}],
+                   pts=6, ns=[1, 2, 1, 2], Nref=1000.0, gt=25.0)
+    P['f4r'] = dict(prog=three + [_S([0, 0, 1]), _I(*c4), {'k': 'reorder', 'perm': [4, 1, 2, 3]}, _I(*s4)], pts=6, ns=[1, 1, 2, 1], Nref=2000.0, gt=None)
+    s5 = [0.015, [_C(1.0), _C(2.0), _L(0.5, 1.0), _C(3), _E(2.0, 1.0)], {(1, 5): 0.5, (5, 1): 0.5, (3, 2): 1, (4, 5): 0.25, (2, 4): 0.3}]
+    c5 = [0.01, [_C(1.0), _C(1.5), _C(2.0), _C(0.6), _C(0.8)]]
+    four = three + [_S([1, 0, 0]), _I(*s4)]
+    P['f5'] = dict(prog=four + [_S([1, 0, 0, 0]), _I(*s5), _U(1, [0, 0.1, 0.05, 0.1, 0.02]), _I(*c5), _U(2, [0.1, 0, 0, 0, 0]), _I(*c5),
+                                _U(3, [0, 0.1, 0, 0, 0.1]), _I(*c5), _U(4, [0, 0, 0.2, 0, 0]), _I(*c5), _U(5, [0.05, 0.05, 0.05, 0.05, 0]), _I(*s5),
+                                {'k': 'remove', 'i': 5}, _I(*c4), _S([0, 1, 0, 0]), _I(*c5), {'k': 'remove', 'i': 1}, _I(*c4), _S([0, 0, 1, 0]), _I(*c5),
+                                {'k': 'remove', 'i': 3, 'api': 'filter'}, _I(*c4), _S([0, 0, 0, 1]), _I(*s5), {'k': 'remove', 'i': 5}, _I(*c4),
+                                _S([0.1, 0.2, 0.3, 0.4]), _I(*s5), {'k': 'reorder', 'perm': [5, 4, 3, 2, 1]}], pts=6, ns=[1, 1, 1, 1, 1], Nref=1000, gt=None)
+    cases = []
+    for name, c in P.items():
+        Pm = max_pops(c['prog'])
+        case = dict(c, id=name, kind='prog', seed=16, feats=sorted(features(c['prog'])) + ['fixed'],
+                    units=[[25, 'years'], [1.0, 'years'], [0.5, 'kiloyears']] if Pm <= 3 else [[29.0, 'years']],
+                    scales=[1000.0, 0.0625] if Pm <= 3 else [3.0], yaml=Pm == 2)
+        if Pm >= 3:
+            n = n_pops(c['prog'])
+            case['pis'] = [list(range(2, n + 1)) + [1]] + ([list(range(n, 0, -1))] if Pm == 3 else [])
+        cases.append(case)
+    # extrapolation over three grids (pts as a list), as from_demes documents
+    cases.append(dict(P['f2'], id='f2x', kind='prog', pts=[8, 10, 12], seed=16, feats=['fixed', 'pts-list'], units=[[25.0, 'years']], scales=[3.0]))
+    # ancient samples = frozen branches, also as the fifth population, first and last position
+    base4 = dict(prog=four, pts=6, ns=[1, 1, 1, 2], Nref=64.0, gt=None, seed=16)
+    cases.append(dict(base4, id='fa4', kind='ancient', anc=4, phi=0.5, feats=['fixed', 'ancient-5th-frozen']))
+    cases.append(dict(base4, id='fa1', kind='ancient', anc=1, phi=0.25, gt=25.0, feats=['fixed', 'ancient-5th-frozen']))
+    cases.append(dict(prog=three, pts=10, ns=[2, 3, 2], Nref=100.0, gt=None, seed=16, id='fa3', kind='ancient', anc=2, phi=0.4, feats=['fixed']))
+    cases.append(dict(prog=two, pts=12, ns=[3, 4], Nref=40, gt=29, seed=16, id='fa2', kind='ancient', anc=1, phi=0.5, feats=['fixed']))
+    return cases
+
+
+def fixed_graphs():
+    """Hand-written graphs (Python ints throughout, as a YAML file gives them): a single deme whose epochs are cut by
+    all-ancient sampling inside a constant / exponential / linear epoch and exactly at an epoch boundary; three demes
+    plus a branch with symmetric (both directions) and asymmetric migrations that start and end inside exponential and
+    linear epochs, two pulses at the same time, a pulse with two sources, an unsampled deme, every ancient-sample
+    pattern; five contemporaneous demes with pulses among exactly four and exactly five demes."""
+    import demes
+    out = []
+    b = demes.Builder(time_units='generations')
+    b.add_deme('solo', epochs=[dict(end_time=60, start_size=100), dict(end_time=40, start_size=100, end_size=300),
+                               dict(end_time=20, start_size=300, end_size=80, size_function='linear'), dict(end_time=0, start_size=80)])
+    g1 = graph_dict(b.resolve())
+    base = dict(kind='graph', graph=g1, pts=14, sampled=['solo'], ns=[6], Ne=None, seed=16,
+                units=[[25, 'years'], [1, 'years'], [0.5, 'kiloyears']], scales=[1000.0, 0.0625])
+    out.append(dict(base, id='G1', stimes=None, feats=['fixed', 'one-deme'], yaml=True))
+    for q, t in enumerate([10, 30, 50.0, 20, 40, 59]):      # inside constant / linear / exponential epochs, at two boundaries, near the root epoch
+        out.append(dict(base, id='G1a%d' % q, stimes=[t], feats=['fixed', 'one-deme', 'anc-all'], units=[[25, 'years']], scales=[3.0]))
+    b = demes.Builder(time_units='generations')
+    b.add_deme('anc', epochs=[dict(end_time=30, start_size=100)])
+    b.add_deme('A', ancestors=['anc'], epochs=[dict(end_time=15, start_size=150), dict(end_time=0, start_size=150, end_size=400)])
+    b.add_deme('B', ancestors=['anc'], epochs=[dict(end_time=0, start_size=60, end_size=200, size_function='linear')])
+    b.add_deme('C', ancestors=['B'], start_time=12, epochs=[dict(end_time=0, start_size=50)])
+    b.add_migration(demes=['A', 'B'], rate=2e-3, start_time=22, end_time=6)
+    b.add_migration(source='A', dest='C', rate=5e-3, start_time=10, end_time=0)
+    b.add_migration(source='B', dest='A', rate=1e-3, start_time=6, end_time=2)
+    b.add_pulse(sources=['B'], dest='A', proportions=[0.1], time=20)
+    b.add_pulse(sources=['A'], dest='B', proportions=[0.2], time=20)
+    b.add_pulse(sources=['A', 'C'], dest='B', proportions=[0.1, 0.05], time=9)
+    g2 = graph_dict(b.resolve())
+    g2y = to_years(g2, 25, 'years')              # the base graph of this family is in years
+    y = lambda ts: [t * 25 for t in ts]
+    base = dict(kind='graph', graph=g2y, pts=10, Ne=None, seed=16)
+    out.append(dict(base, id='G2', sampled=['C', 'A', 'B'], ns=[2, 3, 4], stimes=None, feats=['fixed', 'years'], yaml=True,
+                    units=[[25, 'years'], [1, 'years'], [0.5, 'kiloyears']], scales=[1000.0, 0.0625], pis=[[2, 3, 1], [3, 2, 1], [2, 1, 3]]))
+    out.append(dict(base, id='G2s', sampled=['B', 'A'], ns=[3, 2], stimes=None, feats=['fixed', 'unsampled-leaf']))
+    anc = [('one-exp', ['C', 'A', 'B'], [0, 4, 0], 8), ('one-at-break', ['C', 'A', 'B'], [0, 6, 0], 8), ('one-lin', ['A', 'B'], [0, 3.5], 8),
+           ('twice', ['A', 'B', 'A'], [0, 0, 5], 8), ('internal', ['A', 'B', 'C', 'anc'], [0, 0, 0, 30], 6),
+           ('all-distinct', ['C', 'A', 'B'], [3, 5, 4], 6), ('all-equal', ['C', 'A', 'B'], [4, 4, 4], 10), ('twice-all', ['A', 'A'], [9, 4], 10)]
+    for name, smp, st, pts in anc:
+        out.append(dict(base, id='G2a-' + name, sampled=smp, ns=[2, 3, 4, 2][:len(smp)], stimes=y(st), pts=pts, feats=['fixed', 'years', 'anc-' + name],
+                        scale_refine=name == 'one-exp'))
+    b = demes.Builder(time_units='generations')
+    b.add_deme('anc', epochs=[dict(end_time=40, start_size=100)])
+    b.add_deme('A', ancestors=['anc'], epochs=[dict(end_time=30, start_size=120)])
+    b.add_deme('B', ancestors=['anc'], epochs=[dict(end_time=0, start_size=80, end_size=160, size_function='linear')])
+    b.add_deme('A1', ancestors=['A'], epochs=[dict(end_time=0, start_size=60, end_size=150)])
+    b.add_deme('A2', ancestors=['A'], epochs=[dict(end_time=0, start_size=90)])
+    b.add_deme('C', ancestors=['B'], start_time=20, epochs=[dict(end_time=0, start_size=70)])
+    b.add_deme('E', ancestors=['A2'], start_time=10, epochs=[dict(end_time=0, start_size=50, end_size=100)])
+    b.add_migration(demes=['A1', 'A2'], rate=4e-3, start_time=25, end_time=0)
+    b.add_migration(source='B', dest='E', rate=3e-3, start_time=8, end_time=2)
+    b.add_pulse(sources=['A1'], dest='C', proportions=[0.2], time=15)
+    b.add_pulse(sources=['A2', 'B'], dest='A1', proportions=[0.1, 0.05], time=14)
+    b.add_pulse(sources=['E'], dest='B', proportions=[0.1], time=5)
+    b.add_pulse(sources=['A1', 'C'], dest='E', proportions=[0.05, 0.1], time=4)
+    g5 = graph_dict(b.resolve())
+    base = dict(kind='graph', graph=g5, pts=6, Ne=None, seed=16)
+    out.append(dict(base, id='G5', sampled=['E', 'B', 'A1', 'C', 'A2'], ns=[1, 1, 2, 1, 1], stimes=None, feats=['fixed', 'five-demes'],
+                    units=[[29, 'years']], scales=[3.0], pis=[[5, 4, 3, 2, 1]]))
+    out.append(dict(base, id='G5a', sampled=['E', 'B', 'A1', 'C', 'A2'], ns=[1, 1, 2, 1, 1], stimes=[2, 2, 2, 2, 2], feats=['fixed', 'five-demes', 'anc-all-equal'],
+                    units=[[29, 'years']], scales=[3.0]))
+    return out
 
 
 def case_records(case):
@@ -803,13 +1007,20 @@ def case_records(case):
 def tlc_programs(ctx):
     pool = []
     info = []
-    for cfg, num in (('DemesIOMC_gen.cfg', 30 if ctx.quick else 150), ('DemesIOMC_gen5.cfg', 12 if ctx.quick else 60)):
-        r = common.tlc('DemesIOMC', cfg, workers=1, simulate='num=%d' % num, extra=['-depth', '8', '-seed', str(ctx.seed)], timeout=600)
+
+    def sim(cfg, num, seed):
+        r = common.tlc('DemesIOMC', cfg, workers=1, simulate='num=%d' % num, extra=['-depth', '8', '-seed', str(seed)], timeout=600)
         ps = [p[1] for p in r.prints if p and p[0] == 'PROG' and isinstance(p[1], list)]
         if not ps:
             raise common.MachineryError('tlc -simulate produced no program with %s\n%s' % (cfg, r.out[-1500:]))
-        info.append({'cfg': cfg, 'behaviours': num, 'programs_printed': len(ps), 'wall_s': round(r.wall, 1)})
-        pool += ps
+        info.append({'cfg': cfg, 'behaviours': num, 'seed': seed, 'programs_printed': len(ps), 'wall_s': round(r.wall, 1)})
+        return ps
+    pool += sim('DemesIOMC_gen.cfg', 20 if ctx.quick else 150, ctx.seed)
+    pool += sim('DemesIOMC_gen5.cfg', 10 if ctx.quick else 60, ctx.seed)
+    for extra in (1, 2, 3):          # every population count 1..5 must be present, whatever the seed
+        if all(any(max_pops(p) == P for p in pool) for P in range(1, 6)):
+            break
+        pool += sim('DemesIOMC_gen5.cfg', 20 * extra, ctx.seed + extra)
     seen, uniq = set(), []
     for p in pool:
         k = json.dumps(p, sort_keys=True)
@@ -859,7 +1070,7 @@ def select_programs(pool, quota, rng):
     for P, q in sorted(quota.items()):
         cand = list(byP.get(P, []))
         rng.shuffle(cand)
-        cand = [(p, features(p)) for p in cand[:4000]]
+        cand = [(p, features(p)) for p in cand[:1500]]
         covered = set()
         for _ in range(q):
             if not cand:
@@ -911,12 +1122,16 @@ def concretise(p, rng):
 
 def build_cases(ctx, rng):
     pool, gen_info = tlc_programs(ctx)
-    quota = {1: 2, 2: 6, 3: 8, 4: 5, 5: 3} if ctx.quick else {1: 5, 2: 24, 3: 40, 4: 18, 5: 10}
+    quota = {1: 1, 2: 3, 3: 5, 4: 3, 5: 2} if ctx.quick else {1: 5, 2: 24, 3: 40, 4: 18, 5: 10}
     progs = select_programs(pool, quota, rng)
+    for P in quota:
+        if not any(max_pops(p) == P for p in progs):
+            raise common.MachineryError('tlc -simulate produced no program with %d populations' % P)
     # plus tree-shaped programs of 4 and 5 populations relative to the root size (so that one defect does not hide another)
     trees = select_programs([p for p in pool if not any(f.startswith('admix') for f in features(p))],
-                            {4: 3, 5: 2} if ctx.quick else {3: 6, 4: 10, 5: 6}, rng)
-    cases = []
+                            {4: 1, 5: 1} if ctx.quick else {3: 6, 4: 10, 5: 6}, rng)
+    # the deterministic part: every named element of the property's domain, whatever the seed
+    cases = fixed_programs() + fixed_graphs()
     n = itertools.count()
     for p in progs + trees:
         P = max_pops(p)
@@ -927,13 +1142,13 @@ def build_cases(ctx, rng):
         pts = {1: 14, 2: 12, 3: 10, 4: 6 if ctx.quick else 7, 5: 6}[P]
         ns = [rng.randint(2, 4) for _ in range(Pf)] if P <= 3 else [rng.randint(1, 2) for _ in range(Pf)] if P == 4 else [1] * Pf
         case = {'id': 'p%d' % next(n), 'kind': 'prog', 'prog': prog, 'pts': pts, 'ns': ns, 'Nref': rng.choice([1000.0, 7300.0, float(rng.randint(200, 20000))]),
-                'gt': rng.choice([None, None, 25.0, 29.0]), 'seed': rng.randrange(10 ** 9), 'feats': sorted(features(p))}
+                'gt': [None, 25.0, None, 29.0][len(cases) % 4], 'seed': rng.randrange(10 ** 9), 'feats': sorted(features(p))}
         cases.append(case)
         if prog[-1]['k'] == 'int' and 2 <= Pf <= 4 and (P >= 4 or rng.random() < 0.6):
             cases.append(dict(case, id=case['id'] + 'a', kind='ancient', Nref=rng.choice([40.0, 64.0, 100.0]), anc=rng.randint(1, Pf), phi=rng.choice([0.5, 0.25, round(rng.uniform(0.1, 0.9), 3)])))
     # graphs
     plans = [set(), {'tri'}, {'merge'}, {'admix'}, {'admix_end'}, {'branch'}, {'extinct'}, {'latepulse'}, {'merge', 'branch'}, {'pulsesplit'}, {'branch', 'pulsesplit'}]
-    ngraphs = 14 if ctx.quick else 90
+    ngraphs = 11 if ctx.quick else 90
     made = tries = 0
     while made < ngraphs and tries < 40 * ngraphs:
         tries += 1
@@ -950,7 +1165,7 @@ def build_cases(ctx, rng):
         pts = {1: 14, 2: 12, 3: 10, 4: 6 if ctx.quick else 7, 5: 6}[D]
         smp = list(leaves)
         rng.shuffle(smp)
-        if len(smp) > 1 and rng.random() < 0.3:
+        if len(smp) > 1 and made % 3 == 0:
             smp = smp[:-1]                      # an unsampled deme alive at the present is integrated out
         nsz = lambda k, D=D: [rng.randint(2, 3) if D <= 3 else 1 for _ in range(k)]
         base = {'kind': 'graph', 'graph': gd, 'pts': pts, 'feats': sorted(feats)}
@@ -958,7 +1173,7 @@ def build_cases(ctx, rng):
         cases.append(dict(base, id=gid, sampled=smp, ns=nsz(len(smp)), stimes=None, Ne=None, seed=rng.randrange(10 ** 9)))
         # ancient samples
         byname = {d['name']: d for d in gd['demes']}
-        var = rng.choice(['one', 'all', 'twice', 'twice-all', 'internal', 'one'])
+        var = ['one', 'all', 'twice', 'twice-all', 'internal'][made % 5]
         a = rng.choice(smp)
         span = min(byname[a]['start_time'], 10 ** 6)
         # a frozen branch has size 1, so dadi takes ~125 time steps per generation after the ancient sample: keep those short
@@ -1057,7 +1272,11 @@ def run(ctx):
         extra_cov={'cases': kinds, 'programs_from_tlc_simulate': gen_info,
                    'populations_per_program': {str(P): sum(1 for c in cases if c['kind'] == 'prog' and max_pops(c['prog']) == P) for P in range(1, 6)},
                    'demes_per_graph': {str(P): sum(1 for c in cases if c['kind'] == 'graph' and max_demes(c['graph']) == P) for P in range(1, 6)}},
-        assumptions=['programs are the successor states printed by tlc -simulate on DemesIOMC (structure from TLC, numbers jittered by a seeded generator)',
+        assumptions=['a deterministic set of hand-written programs and graphs (fixed_programs, fixed_graphs) draws every named element of the property\'s domain in every run: '
+                     'each split / pulse / removal / reorder function and position for 1-5 populations, the three size functions in each integrator, symmetric and asymmetric '
+                     'migration, same-time and multi-source pulses, every ancient-sample pattern incl. epoch boundaries, units years / generations / another name with '
+                     'generation_time 25, 1, 1/2, scale factors 1000 and 1/16, YAML-file input, a list of grid sizes, Python ints',
+                     'programs are the successor states printed by tlc -simulate on DemesIOMC (structure from TLC, numbers jittered by a seeded generator)',
                      'graphs with branches, mergers, admixtures, multi-way splits, extinctions, partial-epoch migrations and ancient samples come from a seeded generator filtered by the demes library\'s own validation',
                      'every relation is decided by TLC on exact rationals of the recorded floats: tolerance 1e-10 relative (floor 1e-13) on graph numbers and call arguments, '
                      '1e-10 of the largest entry on spectra; refinement clause: distance <= 1e-2 and halves when timescale_factor is divided by 4',
